@@ -18,7 +18,7 @@ RULE = ("one evaluation = one chunked read of a generated well-formed file on si
         "number of chunks bucket, fault kind)")
 
 FORMAT_WEIGHTS = [(3, "bed3"), (2, "bed6"), (2, "bdg"), (2, "narrowpeak"), (2, "vcf"), (2, "vcfinfo"), (1, "vcfgt"), (1, "wig"), (1, "gff3"), (1, "gfa"), (1, "pairs"), (2, "sam"), (2, "gtf"),
-                  (3, "fasta2"), (3, "fastaw"), (3, "fastq")]
+                  (3, "fasta2"), (3, "fastaw"), (3, "fastq"), (1, "bed12"), (1, "sizes")]
 SCHEDS = [(2, "fixed"), (4, "sweep"), (2, "varying"), (1, "default_iter"), (1, "default_stream")]
 
 
